@@ -1807,6 +1807,7 @@ public:
   template<class T>
   static bool containsAll(std::vector<T>& v1, std::vector<T>& v2)
   {
+    if (v1.size() == 0) return v2.size() == 0;
     std::sort(v1.begin(), v1.end());
     std::sort(v2.begin(), v2.end());
     size_t j = 0;
